@@ -966,7 +966,7 @@ class Exec(object):
             r = self.models.contains(self, path, c, item)
             if r is not None:
                 return r
-        if isinstance(c, VInst):
+        if isinstance(c, (VInst, VOpaque)):
             r = self.models.contains(self, path, c, item)
             if r is not None:
                 return r
